@@ -1002,11 +1002,14 @@ def check_c10(rng, n, hashseeds=("0", "1", "2")):
             if shape == "batchseq":
                 # whole-cluster reservations one after the other on machines of very different speeds: the order
                 # in which a released reservation's machines come back decides who runs what next
-                nm = rng.randint(4, 6)
+                par = 1 if (i // 6) % 3 == 0 else rng.choice([2, 3])
+                nm = rng.randint(4, 6) if par == 1 else rng.randint(6, 8)
                 spec["machines"] = [{"id": "m%d" % k, "flops": f, "bw": rng.choice([1, 2, 4])}
                                     for k, f in enumerate(rng.sample([1, 2, 4, 5, 8, 10, 20, 40], nm))]
                 spec["max_ingest"] = min(spec["max_ingest"], 2)
-                spec["scheduling"] = {"kind": "batch", "partitions": 1, "min": 1, "split": None}
+                # par = 2: each reservation takes half of the cluster and the next one is cut from what is left
+                # over WHILE the first is still held; par = 1: the whole cluster, one reservation after the other
+                spec["scheduling"] = {"kind": "batch", "partitions": par, "min": 1, "split": None}
                 spec["delay"] = None
                 base = dict(spec["observations"][0])
                 obs, t = [], base["start"]
@@ -1018,8 +1021,14 @@ def check_c10(rng, n, hashseeds=("0", "1", "2")):
                     for nd in o["workflow"]["nodes"]:
                         nd["comp"] = 40 * rng.randint(1, 5)
                     obs.append(o)
-                    t += o["duration"] + rng.randint(0, 3)
+                    t += (o["duration"] + rng.randint(0, 3)) if par == 1 else rng.randint(0, 1)
                 spec["observations"] = obs
+                if par >= 2:
+                    spec["max_ingest"] = 1
+                    for o in obs:
+                        o["ingest_demand"] = 1
+                        o["demand"] = 1
+                    spec["total_arrays"] = max(spec["total_arrays"], len(obs))
                 tot = sum(o["rate"] * o["duration"] for o in obs)
                 spec["hot"]["capacity"] = int(tot / 0.6) + 5
                 spec["cold"]["capacity"] = spec["hot"]["capacity"] + 5
